@@ -38,6 +38,7 @@ func HandleSelect(deps ServerDeps, conn net.Conn, tag string, parts []string, st
 	// RFC 3501 section 6.3.1: a SELECT/EXAMINE first deselects the currently
 	// selected mailbox; if it then fails, no mailbox is selected.
 	state.SelectedMailboxID = 0
+	state.ReadOnly = false
 	state.IsRoleMailbox = false
 	state.SelectedRoleMailboxID = 0
 
@@ -116,6 +117,8 @@ func HandleSelect(deps ServerDeps, conn net.Conn, tag string, parts []string, st
 	}
 
 	state.SelectedMailboxID = mailboxID
+	// EXAMINE selects the mailbox read-only (RFC 3501 section 6.3.2)
+	state.ReadOnly = strings.ToUpper(parts[1]) == "EXAMINE"
 
 	// Get mailbox info (UID validity and next UID)
 	uidValidity, uidNext, err := db.GetMailboxInfoPerUser(targetDB, mailboxID)
@@ -219,9 +222,6 @@ func HandleClose(deps ServerDeps, conn net.Conn, tag string, state *models.Clien
 
 	// Important: Per RFC 3501, if mailbox is read-only (selected with EXAMINE),
 	// no messages are removed and no error is given.
-	// Since we don't currently track read-only state in ClientState,
-	// we always perform the expunge operation.
-	// TODO: Add ReadOnly field to ClientState to properly handle EXAMINE
 
 	// Get the database the selected mailbox lives in (user or role mailbox)
 	userDB, _, err := deps.GetSelectedDB(state)
@@ -229,39 +229,43 @@ func HandleClose(deps ServerDeps, conn net.Conn, tag string, state *models.Clien
 		// Clear selection and return
 		state.SelectedMailboxID = 0
 		state.SelectedFolder = ""
+		state.ReadOnly = false
 		deps.SendResponse(conn, fmt.Sprintf("%s OK CLOSE completed", tag))
 		return
 	}
 
-	// Delete all messages with \Deleted flag from the mailbox
-	// Query for all messages with \Deleted flag in the current mailbox
-	rows, err := userDB.Query(`
-		SELECT id FROM message_mailbox
-		WHERE mailbox_id = ? AND flags LIKE '%\Deleted%'
-	`, state.SelectedMailboxID)
+	if !state.ReadOnly {
+		// Delete all messages with \Deleted flag from the mailbox
+		// Query for all messages with \Deleted flag in the current mailbox
+		rows, err := userDB.Query(`
+			SELECT id FROM message_mailbox
+			WHERE mailbox_id = ? AND flags LIKE '%\Deleted%'
+		`, state.SelectedMailboxID)
 
-	if err == nil {
-		defer func() { _ = rows.Close() }()
+		if err == nil {
+			defer func() { _ = rows.Close() }()
 
-		// Collect all message_mailbox IDs to delete
-		var idsToDelete []int64
-		for rows.Next() {
-			var id int64
-			if err := rows.Scan(&id); err == nil {
-				idsToDelete = append(idsToDelete, id)
+			// Collect all message_mailbox IDs to delete
+			var idsToDelete []int64
+			for rows.Next() {
+				var id int64
+				if err := rows.Scan(&id); err == nil {
+					idsToDelete = append(idsToDelete, id)
+				}
 			}
-		}
 
-		// Delete the messages from message_mailbox table
-		// This removes them from the mailbox but keeps the message data
-		for _, id := range idsToDelete {
-			_, _ = userDB.Exec(`DELETE FROM message_mailbox WHERE id = ?`, id)
+			// Delete the messages from message_mailbox table
+			// This removes them from the mailbox but keeps the message data
+			for _, id := range idsToDelete {
+				_, _ = userDB.Exec(`DELETE FROM message_mailbox WHERE id = ?`, id)
+			}
 		}
 	}
 
 	// Return to authenticated state by clearing the selected mailbox
 	state.SelectedFolder = ""
 	state.SelectedMailboxID = 0
+	state.ReadOnly = false
 	state.LastMessageCount = 0
 	state.LastRecentCount = 0
 	state.UIDValidity = 0
@@ -287,6 +291,7 @@ func HandleUnselect(deps ServerDeps, conn net.Conn, tag string, state *models.Cl
 	// Close mailbox without expunging messages
 	state.SelectedFolder = ""
 	state.SelectedMailboxID = 0
+	state.ReadOnly = false
 	// Reset state tracking
 	state.LastMessageCount = 0
 	state.LastRecentCount = 0
